@@ -337,6 +337,9 @@ def main(pid, tier, seed, replay=None):
                                   throw=not sampled)
         plan.append({"family": "random behaviours of MTTracer, depth %d, 4 frames (simulation)" % (12 if q else 16),
                      "behaviours": len(beh2)})
+        if len(beh2) > nsim:
+            beh2 = random.Random(seed).sample(beh2, nsim)
+            plan[-1]["replayed_sample"] = nsim
         scs, preds = [], {}
         rates = [2, 3, 10, 100] if sampled else [0, 1]
         rng = random.Random(seed)
